@@ -313,6 +313,16 @@ def hold_cases():
                 if tail == "extend":
                     ops += [["peer_set_best", main[:5 - d] + q + [q[-1] + 1]], ["settle", SETTLE]]
                 res.append({"cfg": {"parents": par, "start": 0, "m": 2000, "bgblocks": 1}, "ops": ops, "skip_model": True})
+    # the shipped default RequestMempool = true: the first check in sync asks for the mempool, the in-sync notification
+    # comes with the next check.  In between a block is announced (by headers), delivered and POPPED by the block thread
+    # (held before it is added): a check in that window must not notify - the node does not hold that block yet.
+    par2 = [[i, i - 1] for i in range(1, 6)]
+    for nb in (1, 2):
+        ext = [0, 1, 2] + list(range(3, 3 + nb))
+        ops = [["peer_set_best", [0, 1, 2]], ["settle", 12], ["check"], ["answer", 0], ["answer", 0], ["answer", 0],
+               ["peer_set_best", ext], ["deliver", 0], ["answer", 0]] + [["deliver", 0]] * nb + \
+              [["process_hold"], ["check"], ["process_release"], ["settle", SETTLE]]
+        res.append({"cfg": {"parents": par2, "start": 0, "m": 2000, "bgblocks": 1, "mempool": 1}, "ops": ops, "skip_model": True})
     # held while the next announcement simply extends the chain (nothing is skipped)
     ops = [["peer_set_best", main], ["settle", SETTLE], ["peer_set_best", main + [50]], ["deliver", 0], ["answer", 0], ["deliver", 0],
            ["process_hold"], ["peer_set_best", main + [50, 51]], ["deliver", 0], ["process_release"], ["settle", SETTLE]]
